@@ -56,4 +56,26 @@ def crlfOk (cfg : Config) (alnum : Bytes → Bool) (s : Bytes) : Bool :=
       crlfStageOk cfg (preWrap O raw).2.1 (preWrap O raw).2.2
 
 
+/-- conjuncts (2) and (3) of `crlfStageOk`: conjunct (1) (every non-ignored multi-line literal ends in a quote) is a
+    theorem at the state the wrapper stage starts from (`Proofs/CrlfPremise.lean`) -/
+def crlfStageOk23 (cfg : Config) (lines : List Line) (ft0 : FT) : Bool :=
+  (!cfg.fmtMls ||
+    match phase0 { cfg with crlf := false } lines ft0 with
+    | some ft1 => ft1.all (agreeTok ({ cfg with crlf := false }).settings ({ cfg with crlf := true }).settings)
+    | none => true) &&
+  (match wrapStageFull { cfg with crlf := false } lines ft0 with
+    | some (ftz, _) => ftz.zipIdx.all (fun x => safeTok (origContent ft0 x.2) x.1)
+    | none => true)
+
+/-- `crlfStageOk23` at the state the wrapper stage starts from: `crlfOk` without its first conjunct -/
+def crlfOk23 (cfg : Config) (alnum : Bytes → Bool) (s : Bytes) : Bool :=
+  match lex s with
+  | none => true
+  | some raw =>
+    match parseAndConsolidate raw with
+    | none => true
+    | some po =>
+      let O : Oracles := { parser := fun _ => po, wrap := fun _ _ ft => ft, alnum := alnum }
+      crlfStageOk23 cfg (preWrap O raw).2.1 (preWrap O raw).2.2
+
 end Pasfmt.CrlfFull
